@@ -6,3 +6,4 @@ EXPLANATION = ("Bounded runtime contracts: ConfigLoader.fit on a tiny 3-body mod
 ASSUMPTIONS = ["A-LIB: scipy.optimize.minimize / iminuit return a point x and f(x) as documented; convergence is not assumed"]
 
 from vt.contracts import iface_nll  # noqa: F401,E402
+from vt.contracts import fit_resolution  # noqa: F401,E402
